@@ -532,7 +532,13 @@ pub fn resp_to_strings(r: &RespVec) -> Vec<String> {
 /// The simulated runtime: single-threaded, paused clock.
 pub fn run_sim<F: Future>(fut: F) -> F::Output {
     let rt = tokio::runtime::Builder::new_current_thread().enable_time().start_paused(true).build().expect("runtime");
-    let out = rt.block_on(fut);
+    // every timestamp the broker or a proxy records reads the simulated clock, never the host's
+    crate::broker::install_hooks();
+    crate::broker::INJECTED_MAX_EPOCH.store(u64::MAX, std::sync::atomic::Ordering::SeqCst);
+    let out = rt.block_on(async move {
+        *crate::broker::SIM_CLOCK_START.lock() = Some(tokio::time::Instant::now());
+        fut.await
+    });
     // dropping the runtime cancels every remaining task
     drop(rt);
     out
